@@ -386,3 +386,237 @@ func (c *Ctx) condKey(ifi *ssa.If) string {
 	}
 	return neg + kind(a.X) + a.Op.String() + kind(a.Y)
 }
+
+func init() { register("C15", c15r8) }
+
+// C15-R8: a message in flight leaves a mark the export check tests.
+func c15r8(c *Ctx) {
+	const rule = "C15-R8"
+	c.Doc(rule, "sendMessageWithEnd (every success return) stores into a boolean Stream field a value computed from its end-flag parameter, and both frame receivers store one computed from the received header's flag byte; those fields are written nowhere else; ExportCryptoState returns success only past the false edge of each of them: a partially sent or partially received message (also one framed by the typed-message layer or SendPartialMessage, which buffer nothing in the stream) makes export refuse")
+	send := c.needFn(rule, "stream", "(*Stream).sendMessageWithEnd")
+	rf := c.needFn(rule, "stream", "(*Stream).ReceiveFrame")
+	rfe := c.needFn(rule, "stream", "(*Stream).ReceiveFrameWithEnd")
+	exp := c.needFn(rule, "stream", "(*Stream).ExportCryptoState")
+	rwc := c.needFn(rule, "stream", "(*Stream).readWithContext")
+	partial := c.needObj(rule, "stream", "EndFlagPartial")
+	if send == nil || rf == nil || rfe == nil || exp == nil || rwc == nil || partial == nil {
+		return
+	}
+	pv, _ := constantInt(partial)
+	// markStores: stores of a bool computed by comparing src-derived value with EndFlagPartial into a Stream field
+	markStores := func(fn *ssa.Function, isSrc func(ssa.Value) bool) map[*types.Var][]ssa.Instruction {
+		out := map[*types.Var][]ssa.Instruction{}
+		allInstrs(fn, func(_ *ssa.BasicBlock, _ int, in ssa.Instruction) {
+			st, ok := in.(*ssa.Store)
+			if !ok {
+				return
+			}
+			fa, ok := st.Addr.(*ssa.FieldAddr)
+			if !ok {
+				return
+			}
+			if b, ok := st.Val.Type().Underlying().(*types.Basic); !ok || b.Kind() != types.Bool {
+				return
+			}
+			bo, ok := st.Val.(*ssa.BinOp)
+			if !ok || (bo.Op != token.EQL && bo.Op != token.NEQ) {
+				return
+			}
+			k, isC := constInt(bo.Y)
+			x := bo.X
+			if !isC {
+				k, isC = constInt(bo.X)
+				x = bo.Y
+			}
+			if !isC || k != pv || !mentions(x, isSrc) {
+				return
+			}
+			out[fieldOfAddr(fa)] = append(out[fieldOfAddr(fa)], st)
+		})
+		return out
+	}
+	var marks []*types.Var
+	allow := map[*types.Var]map[*ssa.Function]bool{}
+	n := 0
+	// send side: source = the end parameter (last parameter)
+	endPar := send.Params[len(send.Params)-1]
+	sm := markStores(send, func(v ssa.Value) bool { return v == ssa.Value(endPar) })
+	if len(sm) == 0 {
+		c.Violate(rule, fnName(send)+"#mark", "sendMessageWithEnd records nowhere whether the frame it sent was a partial frame: a message in flight (flushPartialFrame, SendPartialMessage, Message.FlushFrame(isEOM=false)) is invisible to ExportCryptoState", send.Pos())
+	}
+	for f, sts := range sm {
+		n++
+		marks = append(marks, f)
+		allow[f] = fnSet(send)
+		c.mustPassReturns(rule+"", send, c.successTargets(send), newCuts().AddInstrs(sts...), "the store of (end == EndFlagPartial) into Stream."+f.Name())
+	}
+	// receive side: source = byte 0 of the header buffer read from the wire
+	for _, fn := range []*ssa.Function{rfe, rf} {
+		isFlagByte := func(v ssa.Value) bool {
+			u, ok := v.(*ssa.UnOp)
+			if !ok || u.Op != token.MUL {
+				return false
+			}
+			ia, ok := u.X.(*ssa.IndexAddr)
+			if !ok {
+				return false
+			}
+			if i, isC := constInt(ia.Index); !isC || i != 0 {
+				return false
+			}
+			for _, rc := range callsIn(fn, rwc.Object()) {
+				if memRoot(rc.Common().Args[2]) == memRoot(ia.X) {
+					return true
+				}
+			}
+			return false
+		}
+		rm := markStores(fn, isFlagByte)
+		if len(rm) == 0 {
+			c.Violate(rule, fnName(fn)+"#mark", fnName(fn)+" records nowhere whether the frame it accepted was a partial frame: an inbound message in progress is invisible to ExportCryptoState", fn.Pos())
+		}
+		for f, sts := range rm {
+			n++
+			seen := false
+			for _, m := range marks {
+				if m == f {
+					seen = true
+				}
+			}
+			if !seen {
+				marks = append(marks, f)
+				allow[f] = map[*ssa.Function]bool{}
+			}
+			allow[f][fn] = true
+			c.mustPassReturns(rule, fn, c.successTargets(fn), newCuts().AddInstrs(sts...), "the store of (end flag == EndFlagPartial) into Stream."+f.Name())
+		}
+	}
+	// export tests every mark; nobody else writes them
+	for _, f := range marks {
+		off, _ := fieldCondEdges(exp, f)
+		tg := c.successTargets(exp)
+		ok := len(off) > 0
+		var wit []string
+		for _, t := range tg {
+			if p := findPath(entryPoint(exp), t.Target(), newCuts().AddEdges(off...)); p != nil {
+				ok = false
+				wit = c.describePath(p)
+			}
+		}
+		c.Check(ok, rule, fnName(exp)+"#tests:Stream."+f.Name(), "export succeeds only when Stream."+f.Name()+" is false", "ExportCryptoState can succeed while Stream."+f.Name()+" is set (a message is in flight)", exp.Pos(), wit...)
+		var wr []*ssa.Function
+		poss := map[*ssa.Function]token.Pos{}
+		for _, a := range c.fieldAccesses(f) {
+			if a.Write {
+				wr = append(wr, a.Fn)
+				poss[a.Fn] = a.Instr.Pos()
+			}
+		}
+		c.whoMay(rule, "write Stream."+f.Name(), wr, poss, allow[f])
+	}
+	c.MinCount(rule, "in-flight marks (send + two receivers)", n, 3)
+}
+
+func init() { register("C15", c15r9) }
+
+// C15-R9: "a protected frame was received" is recorded only for a frame that authenticated.
+func c15r9(c *Ctx) {
+	const rule = "C15-R9"
+	c.Doc(rule, "in decryptDataWithAAD every store to Stream.finishedRecvAAD (the flag ExportCryptoState reads as 'a protected frame has been received in this direction') lies behind the nil-error edge of cipher.AEAD.Open: a first frame that failed authentication does not make the stream look past its handshake")
+	dec := c.needFn(rule, "stream", "(*Stream).decryptDataWithAAD")
+	flag := c.needField(rule, "stream", "Stream", "finishedRecvAAD")
+	open := c.aeadMethod(rule, "Open")
+	if dec == nil || flag == nil || open == nil {
+		return
+	}
+	cuts := newCuts()
+	for _, cs := range callsIn(dec, open) {
+		succ, _, _ := callErrEdges(dec, cs.Value())
+		cuts.AddEdges(succ...)
+	}
+	n := 0
+	for _, st := range storesToField(dec, flag) {
+		n++
+		c.mustPassInstr(rule, fnName(dec)+"#finishedRecvAAD-store", dec, st, cuts, "a nil-error Open")
+	}
+	c.MinCount(rule, "stores to finishedRecvAAD in decryptDataWithAAD", n, 1)
+}
+
+func init() { register("C19", c19r5) }
+
+// C19-R5: a cancelled send is all-or-nothing.
+func c19r5(c *Ctx) {
+	const rule = "C19-R5"
+	c.Doc(rule, "in sendMessageWithEnd every state-changing step of a send (encryptDataWithAAD, which spends a nonce; writes to the send digest; the sendDigestWritten flag) lies behind the nil edge of ctx.Err() - a context that is already done changes nothing and leaves the connection usable; and writeWithContext, which only sees frames whose state is committed, passes s.conn.Close() on every path from its own ctx.Err()!=nil entry edge to the return (the connection is closed rather than left half-used)")
+	send := c.needFn(rule, "stream", "(*Stream).sendMessageWithEnd")
+	wwc := c.needFn(rule, "stream", "(*Stream).writeWithContext")
+	enc := c.needFn(rule, "stream", "(*Stream).encryptDataWithAAD")
+	digest := c.needField(rule, "stream", "Stream", "sendDigest")
+	written := c.needField(rule, "stream", "Stream", "sendDigestWritten")
+	conn := c.needField(rule, "stream", "Stream", "conn")
+	if send == nil || wwc == nil || enc == nil || digest == nil || written == nil || conn == nil {
+		return
+	}
+	// edges on which ctx.Err() is known nil / non-nil in fn
+	errEdges := func(fn *ssa.Function) (nilE, nonNil []Edge) {
+		allInstrs(fn, func(_ *ssa.BasicBlock, _ int, in ssa.Instruction) {
+			call, ok := in.(*ssa.Call)
+			if !ok || !call.Call.IsInvoke() || call.Call.Method.Name() != "Err" {
+				return
+			}
+			if call.Call.Method.Pkg() == nil || call.Call.Method.Pkg().Path() != "context" {
+				return
+			}
+			n, nn := nilEdges(fn, call)
+			nilE = append(nilE, n...)
+			nonNil = append(nonNil, nn...)
+		})
+		return
+	}
+	nilE, _ := errEdges(send)
+	cuts := newCuts().AddEdges(nilE...)
+	n := 0
+	allInstrs(send, func(_ *ssa.BasicBlock, _ int, in ssa.Instruction) {
+		what := ""
+		switch x := in.(type) {
+		case *ssa.Call:
+			if calleeFn(x) == enc {
+				what = "encryptDataWithAAD"
+			} else if x.Call.IsInvoke() && x.Call.Method.Name() == "Write" && readsField(x.Call.Value, digest) {
+				what = "sendDigest.Write"
+			}
+		case *ssa.Store:
+			if fa, ok := x.Addr.(*ssa.FieldAddr); ok && fieldOfAddr(fa) == written {
+				what = "sendDigestWritten="
+			}
+		}
+		if what == "" {
+			return
+		}
+		n++
+		c.mustPassInstr(rule, fnName(send)+"#"+what+"<-ctx-live", send, in, cuts, "the ctx.Err() == nil edge")
+	})
+	c.MinCount(rule, "state-changing steps of a send", n, 4)
+	// writeWithContext: entry edge with ctx.Err() != nil must close the connection before returning
+	_, nonNil := errEdges(wwc)
+	var closes []ssa.Instruction
+	allInstrs(wwc, func(_ *ssa.BasicBlock, _ int, in ssa.Instruction) {
+		if call, ok := in.(*ssa.Call); ok && call.Call.IsInvoke() && call.Call.Method.Name() == "Close" && readsField(call.Call.Value, conn) {
+			closes = append(closes, call)
+		}
+	})
+	ok := len(nonNil) > 0
+	var wit []string
+	for _, e := range nonNil {
+		if len(e.To().Instrs) == 0 {
+			continue
+		}
+		for _, r := range c.returnsOf(wwc) {
+			if p := findPath(Point{e.To(), 0}, r.Target(), newCuts().AddInstrs(closes...)); p != nil {
+				ok = false
+				wit = c.describePath(p)
+			}
+		}
+	}
+	c.Check(ok, rule, fnName(wwc)+"#cancelled-entry=>Close", "a frame abandoned because the context is done closes the connection", "writeWithContext can give up on an already-committed frame (ctx done on entry) and leave the connection open: both ends are out of step (nonce spent, digest fed) on a connection that looks usable", wwc.Pos(), wit...)
+}
